@@ -292,6 +292,42 @@ Definition apply_deffect (r : N) (s0 : st) (x : st) (e : deffect) : st :=
 
 Definition discard_run (r : N) (s0 : st) (es : list deffect) (x : st) : st := fold_left (apply_deffect r s0) es x.
 
+(* The other handlers that change both the recorded state and the disk, as their effects in order, with what the handler
+   itself does when a later step fails (state writes are not transactional; the backend calls are the failure points). *)
+Definition run_effects (es : list (st -> st)) (x : st) : st := fold_left (fun x f => f x) es x.
+
+Definition set_link (l : N) (x : st) : st :=
+  mkSt (seq x) (cur x) (active x) (chan x) (devmode x) (jailmode x) (classic x) (trymode x) (ignoreval x) (cohort x)
+       (lastref x) (inhib x) (nb x) (cfg x) (revcfg x) (mounted x) l.
+Definition set_mounted (m : list N) (x : st) : st :=
+  mkSt (seq x) (cur x) (active x) (chan x) (devmode x) (jailmode x) (classic x) (trymode x) (ignoreval x) (cohort x)
+       (lastref x) (inhib x) (nb x) (cfg x) (revcfg x) m (link x).
+Definition set_cfgs (c : N) (rc : list (N * N)) (x : st) : st :=
+  mkSt (seq x) (cur x) (active x) (chan x) (devmode x) (jailmode x) (classic x) (trymode x) (ignoreval x) (cohort x)
+       (lastref x) (inhib x) (nb x) c rc (mounted x) (link x).
+
+(* doUnlinkCurrentSnap: backend UnlinkSnap, then Set(Active = false).  When UnlinkSnap reports an error
+   restoreUnlinkOnError links the old current revision again. *)
+Definition uc_effects : list (st -> st) := [set_link 0; fun x => norm (set_active_link false (link x) x)].
+Definition uc_cleanup (s0 x : st) : st := set_link (cur s0) x.
+
+(* doMountSnap: backend SetupSnap; when the mounted snap cannot be read afterwards: UndoSetupSnap + RemoveSnapDir.
+   undoMountSnap: UndoSetupSnap + RemoveSnapDir. *)
+Definition mount_effects (r : N) : list (st -> st) := [fun x => set_mounted (ins r (mounted x)) x].
+Definition mount_cleanup (r : N) (x : st) : st := set_mounted (rem r (mounted x)) x.
+Definition undo_mount_effects (r : N) : list (st -> st) := [fun x => set_mounted (rem r (mounted x)) x].
+
+(* doLinkSnap: backend LinkSnap, SaveRevisionConfig(old current), RestoreRevisionConfig(target) on reverts, and LAST Set with
+   the record computed from the state read at the start.  On any error after LinkSnap the deferred cleanup unlinks again. *)
+Definition link_effects (o : op) (s0 : st) : list (st -> st) :=
+  let y := fst (do_link o s0) in
+  [set_link (orev o);
+   fun x => set_cfgs (cfg x) (revcfg y) x;
+   fun x => set_cfgs (cfg y) (revcfg x) x;
+   fun x => mkSt (seq y) (cur y) (active y) (chan y) (devmode y) (jailmode y) (classic y) (trymode y) (ignoreval y)
+                 (cohort y) (lastref y) (inhib y) (nb y) (cfg x) (revcfg x) (mounted x) (link x)].
+Definition link_cleanup (x : st) : st := set_link 0 x.
+
 (* the configure hook: writes the snap's configuration if the snap's hook does so *)
 Definition do_configure (o : op) (s : st) : st :=
   if ohookcfg o =? 0 then s else
